@@ -263,7 +263,7 @@ PROPS["C15"] = dict(
     suites=[dict(name="names", mod="core", family="names", corr="Corr.CorrNames", check="check15", shard=50)],
     level_text='Proved in Coq by exhaustive case analysis over the finite domain the property quantifies over (6 shapes of event type x 6 name-deriving paths, completeness of the enumeration proved): all paths derive the same name, hence typed replay subscriptions and typed upcasters match what was persisted. Tied to the code by running, for each shape (and the state package messages by value and by pointer), publish+persist, EventType, Replay with an EventType comparison, SubscribeWithReplay[T] on a fresh bus over the same store and RegisterUpcast[T,W] + ReplayWithUpcast against the real code and comparing with the model.',
     level_note='Trusted: Coq kernel + vm_compute; the hand-written model Names/TypeNames.v of how EventType / persistEvent / SubscribeWithReplay / RegisterUpcast derive a name (Go method sets for value and pointer receivers); the Go harness names.go; reflect and encoding/json are not modelled. The shapes are the ones the property lists; generic instantiations, named non-struct types and interface-typed T are not separate shapes in the model.',
-    rule='cases = the 10 shapes (6 of the property + state.ChangeMessage / ControlMessage by value and by pointer), each run with seeded payload values, repeated per seed; non-trivial = every case; distinct = distinct shape+payload',
+    rule='cases = 11 shapes (the 6 of the property + state.ChangeMessage / ControlMessage by value and by pointer + a value receiver whose name depends on the value), each run with seeded payload values, repeated per seed; non-trivial = every case; distinct = distinct shape+payload',
 )
 PROPS["C20"] = dict(
     title='Observability callbacks are balanced, nested and truthful',
